@@ -238,6 +238,14 @@ func writeTemplateFacts(repo, outPath string) {
 	}
 	fmt.Fprintf(&b, "/-- the output-name suffixes of run.go (single file, file per message) -/\ndef nameSuffixes : List String := %s\n\n", leanStrList(lits))
 	fmt.Printf("fact F16 output name suffixes %v\n", lits)
+	// state kept between the files of one request: package-level variables of the plug-in that a function writes to
+	globals, err := packageGlobalsWritten(filepath.Join(repo, "cmd", "protoc-gen-fastmarshal"))
+	if err != nil {
+		fmt.Println("cannot parse cmd/protoc-gen-fastmarshal:", err)
+		os.Exit(1)
+	}
+	fmt.Fprintf(&b, "/-- the package-level variables of cmd/protoc-gen-fastmarshal (non-test files) that some function body writes to:\n    assignment to the variable or to an element / field of it, increment or decrement, delete or clear, its address taken, a\n    receiver-modifying method (Store, Lock, Do, …) called on it -/\ndef generatorGlobalsWritten : List String := %s\n\n", leanStrList(globals))
+	fmt.Printf("fact F19 plug-in package-level variables written by functions %v\n", globals)
 	b.WriteString("end Csproto.Generated\n")
 	writeIfChanged(outPath, []byte(b.String()))
 }
